@@ -246,6 +246,15 @@ def fold_programs(tier):
         if tier == 'quick' and not runner.common.hashlib.md5(pid.encode()).hexdigest().startswith(('0', '1', '2', '3', '4')): continue
         for dn in ('va', 'wa'):
             yield mkprog(pid + '/' + dn, [A(V(dn), B(op, C(l), C(r)))])
+    # every shift count 0..15 (the generator has separate paths for counts < 8, == 8, > 8) on byte-sized and word-sized constants
+    for op, l, r in itertools.product(['<<', '>>'], [1, 3, 0x34, 255, 0x3400, 0x8001], range(16)):
+        pid = 'fold/shift/%s/%d/%d' % (op, l, r)
+        if tier == 'quick' and r < 8 and not runner.common.hashlib.md5(pid.encode()).hexdigest().startswith(('0', '1', '2', '3', '4', '5', '6', '7')): continue
+        for dn in ('va', 'wa'):
+            yield mkprog(pid + '/' + dn, [A(V(dn), B(op, C(l), C(r)))])
+    yield mkprog('fold/un~/sum/wa', [A(V('wa'), Un('~', B('+', C(1), C(2))))])
+    yield mkprog('fold/un-/sum/wa', [A(V('wa'), Un('-', B('+', C(1), C(2))))])
+    yield mkprog('fold/un~/sum/ha', [A(V('ha'), Un('~', B('|', C(1), C(2))))])
     for op, k in itertools.product(['-', '~', '!'], ks):
         for dn in ('va', 'wa'):
             yield mkprog('fold/un%s/%d/%s' % (op, k, dn), [A(V(dn), Un(op, C(k)))])
